@@ -16,7 +16,7 @@ from concurrent.futures import ThreadPoolExecutor
 
 VERIF = os.path.dirname(os.path.dirname(os.path.abspath(__file__)))
 REPO = os.environ.get("VERIF_REPO", "/repo")
-WORK = os.path.join(VERIF, ".work")
+WORK = os.environ.get("VERIF_WORK", os.path.join(VERIF, ".work"))
 
 BASE_ENV = dict(os.environ)
 BASE_ENV.update({"CARGO_NET_OFFLINE": "true", "CARGO_TERM_COLOR": "never"})
@@ -122,7 +122,7 @@ def find_loop_ids(crate, harness_name, wanted):
     return sorted(set(sel))
 
 
-CHECK_RE = re.compile(r"^Check (\d+): (\S+)\n\t - Status: (\S+)\n\t - Description: \"(.*)\"\n\t - Location: (.*)$", re.M)
+CHECK_RE = re.compile(r"^Check (\d+): (\S+)\n\t - Status: (\S+)\n\t - Description: \"(.*?)\"?\n\t - Location: (.*)$", re.M | re.S)
 
 
 def parse_log(txt, res):
